@@ -450,7 +450,7 @@ func strayEntries(root string) []string {
 
 func TestC33RoundTrip(t *testing.T) {
 	pbt.Run(t, pbt.Spec{ID: "C33", Sub: "roundtrip", Quick: 2000, Thorough: 6000,
-		Rule: "valid namespaces from the C10 generator; user and backend credentials replaced by raw byte strings (ASCII punctuation, arbitrary bytes, invalid UTF-8, NUL/control bytes, cipher block boundaries, padding look-alikes, surrounding white space); keys of 16/24/32 bytes (90%) or invalid lengths; store prefixes and namespace names of several shapes; Verify -> Encrypt -> UpdateNamespace -> LoadNamespace/LoadNamespaces through an in-memory client and through LocalClient; non-trivial = round trip completed with at least one credential that is not valid UTF-8",
+		Rule:  "valid namespaces from the C10 generator; user and backend credentials replaced by raw byte strings (ASCII punctuation, arbitrary bytes, invalid UTF-8, NUL/control bytes, cipher block boundaries, padding look-alikes, surrounding white space); keys of 16/24/32 bytes (90%) or invalid lengths; store prefixes and namespace names of several shapes; Verify -> Encrypt -> UpdateNamespace -> LoadNamespace/LoadNamespaces through an in-memory client and through LocalClient; non-trivial = round trip completed with at least one credential that is not valid UTF-8",
 		Floor: 0.3}, genRT, checkRT)
 }
 
@@ -459,9 +459,9 @@ func TestC33RoundTrip(t *testing.T) {
 type decCase struct {
 	Key   []byte   `json:"key"`
 	Plain []byte   `json:"plain"`
-	Data  []byte   `json:"data"`   // arbitrary "ciphertext"
-	Creds []string `json:"creds"`  // what an encrypted namespace's credential fields hold
-	Tweak int      `json:"tweak"`  // how Data was derived: 0 arbitrary, 1 valid ciphertext, 2 last byte changed, 3 truncated, 4 extended
+	Data  []byte   `json:"data"`  // arbitrary "ciphertext"
+	Creds []string `json:"creds"` // what an encrypted namespace's credential fields hold
+	Tweak int      `json:"tweak"` // how Data was derived: 0 arbitrary, 1 valid ciphertext, 2 last byte changed, 3 truncated, 4 extended
 }
 
 func genDec(t *rapid.T) decCase {
@@ -577,7 +577,7 @@ func checkDec(c decCase) (o pbt.Outcome) {
 
 func TestC33Decrypt(t *testing.T) {
 	pbt.Run(t, pbt.Spec{ID: "C33", Sub: "decrypt", Quick: 10000, Thorough: 100000,
-		Rule: "keys of valid and invalid lengths, plaintexts of 0-50 bytes, ciphertexts that are arbitrary, well-formed, corrupted in the padding block, truncated or extended; credential fields holding base64 of those, non-base64 text or nothing; non-trivial = the ciphertext is not a well-formed one for the key",
+		Rule:  "keys of valid and invalid lengths, plaintexts of 0-50 bytes, ciphertexts that are arbitrary, well-formed, corrupted in the padding block, truncated or extended; credential fields holding base64 of those, non-base64 text or nothing; non-trivial = the ciphertext is not a well-formed one for the key",
 		Floor: 0.5}, genDec, checkDec)
 }
 
@@ -641,23 +641,6 @@ func minimalNS(name string) *models.Namespace {
 		Users:  []*models.User{{UserName: "u", Password: "p", Namespace: name, RWFlag: 2}}}
 }
 
-// cleansToDot is the classifier of finding C33-F1: the path, made relative to "/"
-// and cleaned, is "." (the storage directory itself), to which FullNamespacePath
-// appends ".json".
-func cleansToDot(p string) bool {
-	if p == "" {
-		return false
-	}
-	if filepath.IsAbs(p) {
-		r, err := filepath.Rel("/", p)
-		if err != nil {
-			return false
-		}
-		p = r
-	}
-	return filepath.Clean(p) == "."
-}
-
 func checkPaths(c pathCase) (o pbt.Outcome) {
 	root, err := newRoot()
 	if err != nil {
@@ -672,7 +655,6 @@ func checkPaths(c pathCase) (o pbt.Outcome) {
 		return
 	}
 	store := models.NewStore(lc)
-	var known string
 	for i, op := range c.Ops {
 		p := op.Path
 		isStore := strings.HasPrefix(op.Op, "store_")
@@ -705,15 +687,7 @@ func checkPaths(c pathCase) (o pbt.Outcome) {
 			continue
 		}
 		if !inside(storage, full, dirOp) {
-			detail := fmt.Sprintf("op %d %s(%q) [client path %q] resolves to %q, outside the storage directory %q", i, op.Op, op.Path, p, full, storage)
-			if !dirOp && cleansToDot(p) && full == storage+lc.FileSuffix {
-				o.Labels = append(o.Labels, "escape_storage_dot_json")
-				if known == "" {
-					known = detail
-				}
-				continue
-			}
-			o.Violation = detail
+			o.Violation = fmt.Sprintf("op %d %s(%q) [client path %q] resolves to %q, outside the storage directory %q", i, op.Op, op.Path, p, full, storage)
 			return
 		}
 		o.Labels = append(o.Labels, "path_inside")
@@ -750,14 +724,11 @@ func checkPaths(c pathCase) (o pbt.Outcome) {
 			return
 		}
 	}
-	if known != "" {
-		o.Known, o.KnownWhat = "C33-F1", known
-	}
 	return
 }
 
 func TestC33Paths(t *testing.T) {
 	pbt.Run(t, pbt.Spec{ID: "C33", Sub: "paths", Quick: 2000, Thorough: 6000,
-		Rule: "1-8 LocalClient / Store operations on a fresh storage directory with paths and namespace names built from '..', '.', empty, dotted, absolute, over-long components and the characters the client forbids, under several store prefixes; the resolved path is computed first (FullNamespacePath / FullDirPath) and must lie in the storage directory, then the operation runs and the storage directory's parent must hold nothing else; non-trivial = some path contains '..' or is absolute",
+		Rule:  "1-8 LocalClient / Store operations on a fresh storage directory with paths and namespace names built from '..', '.', empty, dotted, absolute, over-long components and the characters the client forbids, under several store prefixes; the resolved path is computed first (FullNamespacePath / FullDirPath) and must lie in the storage directory, then the operation runs and the storage directory's parent must hold nothing else; non-trivial = some path contains '..' or is absolute",
 		Floor: 0.5}, genPaths, checkPaths)
 }
